@@ -124,6 +124,12 @@ class Eval:
     def bucket(d, k):
         d[k] = d.get(k, 0) + 1
 
+    @staticmethod
+    def is_nocap(s):
+        """the harness marks a circuit without free capacity (total bin capacity <= 0) on the replica field: 'OK <same> NOCAP <cap>'
+        (or 'THROW NOCAP <cap> ...')"""
+        return len(s) >= 6 and "NOCAP" in s[5].split()[:3]
+
     def run(self, lines, timeout=3000):
         # the placement runs are slow (ms..s each): spread them over all cores; the other kinds are cheap
         slow = [i for i, l in enumerate(lines) if l.startswith("GP ")]
@@ -215,7 +221,7 @@ class Eval:
             what = s[2]
             kind = ("upper-bound placement exposes a movable cell with its centre outside the rows' bounding box"
                     if what.startswith("OUTSIDE") else "exposed/returned coordinate overflowed or not finite")
-            nocap = len(s) >= 6 and s[5].startswith("NOCAP")
+            nocap = self.is_nocap(s)
             # finding F28: with no free capacity the density grid collapses to the origin and every cell is exposed at (0,0).  Matched
             # only for a circuit without free capacity AND an excursion (as long as known_findings.json lists F28 as `known`)
             if nocap and what.startswith("OUTSIDE") and getattr(self, "ctx", None) is not None and self.ctx.known_finding("F28"):
@@ -236,13 +242,14 @@ class Eval:
             self.bucket(self.dist["rough_coarsening_limit"], "default" if par[20] == "1000" else "other")
         if len(pub) == 4:
             self.cmp_exposed(l, par, ret, pub[1], pub[2], pub[3])
-        if len(s) >= 6 and s[5].startswith("NOCAP"):
+        if self.is_nocap(s):
             # fixed cells / obstructions / the side margin leave no free site in any bin (total capacity <= 0).  The circuit IS in the
             # property's quantifier (a movable cell of positive area, every row >= 4 row-heights wide, "any fixed cells and
             # obstructions"): the public entry point was run and judged above (completed without error, exposed centres, finite
-            # coordinates, frame, exposed blend); only the private replica and the model ties (hypothesis: non-empty clipped rows) are left out
+            # coordinates, frame, exposed blend).  Since the repair of finding F28 the grid of such a circuit is the grid of the rows'
+            # bounding box with zero capacity (Spread.circuit_grid_area, theorem c06_grid_without_free_space): the private replica and the
+            # model ties (bin limits, export, spreading on the final bins) are evaluated below like for every other circuit
             self.stats["gp_no_capacity_runs_judged"] += 1
-            return
         if len(s) < 15 or not s[5].startswith("OK"):
             self.differences.append(("replica of GlobalPlacer::place failed while Circuit::placeGlobal succeeded", l, " | ".join(s[5:])[:300]))
             return
@@ -374,12 +381,21 @@ class Eval:
         case, cpp, cap = payload
         self.stats["grid_limit_lists_compared"] += 1
         mm = m.split(" | ")
+        nclipped = int(mm[1]) if len(mm) > 1 and mm[1].strip().lstrip("-").isdigit() else -1
         if mm[0].split() != cpp.split():
+            # finding F28 on a tree without the repair: no clipped row is left and the C++ grid is the single bin at the origin, where the
+            # model (which follows the repaired code) has the grid of the rows' bounding box.  Matched only for that input class and that
+            # C++ answer, and only as long as known_findings.json lists F28 as `known`
+            if (nclipped == 0 and cpp.split() == ["2", "0", "0", "2", "0", "0"] and getattr(self, "ctx", None) is not None
+                    and self.ctx.known_finding("F28")):
+                self.stats["grid_ties_without_free_space_matched_F28"] = self.stats.get("grid_ties_without_free_space_matched_F28", 0) + 1
+                return
             self.differences.append(("bin limits of DensityGrid::fromIspdCircuit differ from the model (margin clipping / bounding box / "
                                      "computeSubdivisions): C++ %s model %s" % (cpp[:120], mm[0][:120]), l, case[:400]))
             return
+        if nclipped == 0:
+            self.stats["grid_ties_without_free_space"] = self.stats.get("grid_ties_without_free_space", 0) + 1
         if cap is not None:
-            nclipped = int(mm[1]) if len(mm) > 1 and mm[1].strip().lstrip("-").isdigit() else -1
             if (nclipped > 0) != (cap > 0):
                 self.differences.append(("total capacity %d but the model keeps %d clipped rows" % (cap, nclipped), l, case[:400]))
             t = cpp.split()
@@ -679,7 +695,8 @@ def run(ctx):
                 "exposed coordinate of magnitude >= 2^30 (INT_MIN = converted NaN/inf) stops the run and is a violation with the circuit",
         "samples": [gp[0][:400] if gp else "", lines[len(lines) // 2][:400], lines[-1][:400]],
         "corpus_cases": ncorpus, "vm_compute_crosschecked_cases": nvm, "binary32_tie": ftie, "finding_F21_circuit": f21, "kinds": {k: ev.stats.get(k, 0) for k in ("GP", "GR", "SP")},
-        "domain": "rows >= 4 row heights wide, >= 1 movable cell of positive area, clipped capacity > 0 (others SKIPped and counted), "
+        "domain": "rows >= 4 row heights wide, >= 1 movable cell of positive area (others SKIPped and counted); circuits without free capacity included "
+                  "(stream gpn: one macro over all rows, or one obstruction per row leaving at most a sliver), "
                   "CG tolerance 1e-1..1e-6, approximation/cutoff distances >= 0.1, all 4 net models, all 6 cost models, line/diag/square "
                   "windows, 1-D transport on/off, 0-3 rough steps, bin size 1-25, export blending -0.5..1.5, rough-legalization target blending "
                   "-0.1..0.89, quadratic penalty 0..1, coarsening limit 0.5..500, default side margin 0.9, default penalty target blending; "
@@ -694,7 +711,8 @@ def run(ctx):
             "no_capacity (total bin capacity <= 0 after fixed cells, obstructions and the side margin)": "IN the quantifier (a movable cell of positive area, "
                 "every row >= 4 row-heights wide, any fixed cells and obstructions): Circuit::placeGlobal is run and judged on the whole statement "
                 "(completes without error, exposed centres inside the rows' bounding box, finite coordinates, frame, exposed blend); "
-                "statistics.gp_no_capacity_runs_judged; the private replica and the model ties are not evaluated there",
+                "statistics.gp_no_capacity_runs_judged; since the repair of finding F28 (grid of the rows' bounding box, zero capacity) the private replica "
+                "and the model ties (bin limits, export, spreading) are evaluated there too: statistics.grid_ties_without_free_space",
             "row narrower than 4 row-heights / no movable cell of positive area / bin size below one unit / parameters rejected": "OUTSIDE the quantifier: "
                 "skipped and counted by reason in statistics.skipped_by_reason",
             "half-unit tolerance of the centre oracle": "kept (1/2 in y always, 1/2 in x when the margin is 0); its uses are counted separately: "
@@ -711,7 +729,8 @@ def run(ctx):
         "clause 1 (centre inside the rows' bounding box) is proved over Q and conditionally on C16's bins; for area-less cells and on the edge of the area "
         "it is proved AND checked only up to 1/2 (the oracle accepts 1/2 in y always and 1/2 in x when the margin is 0: statistics half_unit_excursions_*); "
         "in binary32 only the closed interval of the clamped expression is proved, not composed with the export",
-        "cases with clipped capacity <= 0 are skipped by the harness as outside the domain (counted), although obstructions can produce them",
+        "circuits without free capacity (every row covered by obstructions, or only pieces <= 2*margin left) are IN the domain: run, judged and "
+        "tied to the model, which follows the repaired code of finding F28 (placement area = bounding box of the rows, every bin capacity 0)",
         "sideMargin is kept at its default (it is not range-checked by the parameter check and not part of the property's quantifier); "
         "the grid theorem needs margin >= 0"])
 
